@@ -733,9 +733,8 @@ class Phase(Angle):
                 return NotImplemented
 
             if phases[0].imaginary == phases[1].imaginary:
-                diff = (phases[0]["int"] - phases[1]["int"]) + (
-                    phases[0]["frac"] - phases[1]["frac"]
-                )
+                dfrac, err = two_sum(phases[0]["frac"], -phases[1]["frac"])
+                diff = ((phases[0]["int"] - phases[1]["int"]) + dfrac) + err
                 return getattr(function, method)(diff, 0, **kwargs)
 
         elif (
